@@ -282,7 +282,13 @@ def validate_normalize_parameter(normalize, unique_times):
             raise ValueError(
                 f"Missing time point(s) in normalization dictionary: {missing_times}"
             )
-    elif isinstance(normalize, (list, ndarray)) and len(normalize) != len(unique_times):
+    elif (
+        normalize is not None
+        and not isinstance(normalize, bool)
+        and hasattr(normalize, "__len__")
+        and len(normalize) != len(unique_times)
+    ):
+        # every sized target (list, tuple, NumPy or JAX array) needs one entry per time point
         raise ValueError(
             "Length of the normalize list or array must match the number of unique time points."
         )
